@@ -165,6 +165,32 @@ func (P *Program) runStructural(spec string) []StructObl {
 			}
 		}
 		return ok("no assignment found")
+	case "no-package-state":
+		// no-package-state <pkgname>: no library function of the package touches a package-level variable (its own or any
+		// other package's): its results are functions of its arguments alone, the same at every node and at every call
+		n := 0
+		for _, fn := range P.allRepoFuncs() {
+			if !P.isLibrary(fn) || fn.Pkg == nil || fn.Pkg.Pkg.Name() != fs[1] || fn.Name() == "init" {
+				continue
+			}
+			n++
+			for _, b := range fn.Blocks {
+				for _, ins := range b.Instrs {
+					for _, op := range ins.Operands(nil) {
+						if op == nil || *op == nil {
+							continue
+						}
+						if g, isG := (*op).(*ssa.Global); isG {
+							return fail("%s uses the package-level variable %s.%s at %s: its result is no longer a function of its arguments", P.fnKey(fn), g.Pkg.Pkg.Name(), g.Name(), P.fset.Position(ins.Pos()))
+						}
+					}
+				}
+			}
+		}
+		if n == 0 {
+			return fail("package %s has no library function (renamed?)", fs[1])
+		}
+		return ok(fmt.Sprintf("%d function(s), none touches a package-level variable", n))
 	case "field-writers":
 		// field-writers <pkg.Type> <field,field,...> <allowed fn key substrings, comma separated>: the listed fields are
 		// stored to only inside the allowed (constructor) functions - so a fact the constructor establishes about them is an
